@@ -35,7 +35,8 @@ def cases(tier, seed):
     keys = (0, 1) if tier == "quick" else tuple(range(8))
     for D in (1, 2, 3):
         for i, s in enumerate(all_specs(D)):
-            for N in Ns[D]:
+            extra_N = [2 * s["kw"]["cutoff"], 2 * s["kw"]["cutoff"] - 1] if (s.get("name") == "RandomSineWaves1d") else []      # under-resolved grids: normalisation must still hold on the samples
+            for N in Ns[D] + extra_N:
                 out.append(dict(kind="gen", D=D, N=N, spec=s, keys=list(keys), rs=[seed, D, i, N], cost=N ** D / 200 + 0.5))
     for D in (1, 2, 3):
         out.append(dict(kind="invalid", D=D, rs=[seed, D, 77], cost=0.3))
